@@ -328,8 +328,47 @@ class NamelessType(metaclass=_NamelessMeta):
         self.v = 1
 
 
+class _Unformattable(str):
+    """Text that refuses to be formatted (a str subclass with a __format__ of its own)."""
+
+    def __str__(self):
+        return self
+
+    def __format__(self, spec):
+        raise Boom('format of the text')
+
+
+class StrReturnsUnformattableText:
+    def __str__(self):
+        return _Unformattable('plain enough')
+
+
+class _NoTextAtAll:
+    def __str__(self):
+        raise Boom('no text for the name')
+
+    __repr__ = __str__
+
+
+def _class_name_is_not_text():
+    """An instance of a class whose __name__ was replaced (class decorators, mocks do that) by something that is not
+    text and cannot be turned into text either."""
+    class Renamed:
+        def __init__(self):
+            self.v = 2
+
+    class _Meta(type):
+        @property
+        def __name__(cls):
+            return _NoTextAtAll()
+
+    return _Meta('Renamed', (), {'__init__': Renamed.__init__, '__module__': __name__})()
+
+
 HOSTILE = [
     ('str_returns_odd_text', lambda r: StrReturnsOddText()),
+    ('str_returns_unformattable_text', lambda r: r.pick([StrReturnsUnformattableText(), _Unformattable('as it is')])),
+    ('class_name_is_not_text', lambda r: _class_name_is_not_text()),
     ('type_without_readable_name', lambda r: NamelessType()),
     ('str_returns_lying_text', lambda r: StrReturnsLyingText(r.pick(['lying', 'lying', 'list_sliced']))),
     ('text_of_a_str_subclass', lambda r: r.pick([_LyingStr('long text ' * 400), _ListSlicedStr('one two three')])),
